@@ -68,13 +68,19 @@ ASSUMPTIONS = [
     '(kind oracle:pos-env); not assumed for splrep',
     'unwrap_model: Phase.unwrap reproduces np.unwrap (period 2pi) away from exact ties',
     'columns are processed independently along axis 0 (every column is compared with the model separately)',
+    'not judged literally (literal=False or tag only): fewer than two samples, invalid mode / method values (any error counts as rejected), '
+    'columns that are not IMFs (no extrema / no upper envelope), wrap_phase with ncycles > 1 or mode -pi2pi, the phase_jump conventions other '
+    'than the one frequency_transform uses, quadrature sign / modulus and amplitude_normalise sign / clip / identity / input conventions, '
+    'one-sided edge samples of the derivative and of the round trip, every assumption:* / oracle:* validator; the cumulative sum may be '
+    'inclusive or exclusive of the start sample; time-outs are tagged',
 ]
 RULE = ('wrap_phase: dyadic / random / huge / tiny-negative / exact-multiple inputs x ncycles 1-3 x both modes (+ invalid mode); '
         'conversions: freq_from_phase, phase_from_freq, np.gradient on dyadic and random arrays, n 0-300, 1-3 columns, 1-D and 2-D; '
         'freq_phase_roundtrip: constant / piecewise-constant / smooth random / chirp profiles; '
         'phase_from_complex_signal: 4 phase-jump conventions x wrapped/unwrapped x smoothing on/off on scipy analytic signals; '
         'frequency_transform: sine, chirp, AM-FM, two-tone, white and smoothed noise, sifted IMFs, degenerate (constant, ramp, '
-        'zeros, one peak between two troughs, ramp next to a sine, n<2) x {hilbert,nht,quad} x 1-3 columns x sample rates x 2^k and random positive rescaling; '
+        'zeros, one peak between two troughs, ramp next to a sine, n<2) x {hilbert,nht,quad} x 1-3 columns x sample rates x 2^k (k from -100 to 60: small '
+        'physical units are ordinary data) and random positive rescaling, judged within rounding (1e-9), literally on IMF columns only; '
         'sinusoid_recovery: sr in 7 values, n 512-4096, f log-uniform from 4 cycles per record to sr/12, amplitude log-uniform '
         'over 3 decades, phase uniform in [0,2pi), 1-3 columns x 3 methods; quadrature, amplitude_normalise: same families with '
         'envelope tables from the real interp_envelope (amplitude_normalise also x interp_method pchip / mono_pchip / splrep). Non-trivial: the case exercises a non-default branch (negative or '
